@@ -216,6 +216,30 @@ def _len_case(vals, acc, lazy=False):
                                              'got': got, 'want': want},
                      {'len': [repr(value), lo, hi], 'lazy': lazy})
             return
+    # bounds left out are no bounds: min_length=0, max_length=None (the documented signature)
+    left_out = []
+    if lo == 0:
+        left_out.append(({'max_length': hi}, 'min_length'))
+    if hi is None:
+        left_out.append(({'min_length': lo}, 'max_length'))
+    if lo == 0 and hi is None:
+        left_out.append(({}, 'both'))
+    for kw, which in left_out:
+        try:
+            r = strutils.check_string_length(value, **kw)
+            got = 'ok' if r is None else 'returned %r' % (r,)
+        except TypeError:
+            got = 'TypeError'
+        except ValueError:
+            got = 'ValueError'
+        except Exception as e:
+            got = 'raises ' + type(e).__name__
+        if got != want:
+            acc.fail('check_string_length:%s-left-out' % which,
+                     {'value': repr(value)[:40], 'given': kw, 'lazy_translation': lazy,
+                      'got': got, 'want': want},
+                     {'len': [repr(value), lo, hi], 'lazy': lazy})
+            return
 
 
 HEX = '0123456789abcdef'
